@@ -42,3 +42,183 @@ def handler_covers(res: CheckResult, prog: Program):
             else:
                 detail = f'handler catches {names}, which does not cover MosMergeError'
     res.add('HANDLER-COVERS', fi.short, 'except clause around self._ro += mo', ok, '' if ok else detail, fi.file, fi.node.lineno)
+
+
+# ----------------------------------------------------------------- helpers
+def calls_in(node, pred):
+    return [n for n in ast.walk(node) if isinstance(n, ast.Call) and pred(n)]
+
+
+def attr_chain(e) -> str:
+    try:
+        return ast.unparse(e)
+    except Exception:
+        return ''
+
+
+def const_str_dict(fi: FuncInfo):
+    """dict displays inside a function whose values are plain names (class references)"""
+    out = []
+    for n in ast.walk(fi.node):
+        if isinstance(n, ast.Dict) and n.keys and all(k is not None for k in n.keys):
+            out.append(n)
+    return out
+
+
+# ------------------------------------------------------------------- C08
+def tag_table(res: CheckResult, prog: Program, schema):
+    """TAG-TABLE: keys of the tag->class table = documented elements; each class's base_tag_name literal = its key."""
+    from .harness import base_tag_literal
+    res.rules['TAG-TABLE'] = 'the tag -> class table of MosFile._classify has exactly the 16 documented message elements and maps each to the class whose base_tag_name is that tag'
+    fi = prog.func('MosFile._classify')
+    tables = [d for d in const_str_dict(fi) if all(isinstance(k, ast.Constant) and isinstance(k.value, str) for k in d.keys)]
+    if not tables:
+        res.error('TAG-TABLE: no tag -> class dict display found in MosFile._classify (idiom not recognised)')
+        return
+    d = max(tables, key=lambda t: len(t.keys))
+    got = {}
+    for k, v in zip(d.keys, d.values):
+        got[k.value] = attr_chain(v)
+    for tag, cname in schema.DOCUMENTED_TAGS.items():
+        if tag not in got:
+            res.add('TAG-TABLE', fi.short, f'{tag!r} -> {cname}', False, f'documented message element {tag} has no row', fi.file, d.lineno)
+            continue
+        ok = got[tag] == cname
+        detail = '' if ok else f'{tag} is mapped to {got[tag]}, documentation says {cname}'
+        if ok and cname in prog.classes:
+            lit = base_tag_literal(None, prog.cls(cname))
+            if lit != tag:
+                ok, detail = False, f'{cname}.base_tag_name returns {lit!r} but the table key is {tag!r}'
+        res.add('TAG-TABLE', fi.short, f'{tag!r} -> {cname}', ok, detail, fi.file, d.lineno)
+    for tag in got:
+        if tag not in schema.DOCUMENTED_TAGS:
+            res.add('TAG-TABLE', fi.short, f'{tag!r} -> {got[tag]}', False, 'row for an undocumented message element', fi.file, d.lineno)
+    # first match wins: roCreate must precede roDelete if a completed running order is to stay a RunningOrder
+    keys = [k.value for k in d.keys]
+    if 'roCreate' in keys and 'roDelete' in keys:
+        res.add('TAG-TABLE', fi.short, 'roCreate is probed before roDelete', keys.index('roCreate') < keys.index('roDelete'),
+                'roDelete is probed first: a written-out completed running order would be classified as RunningOrderEnd if nested elements were searched', fi.file, d.lineno)
+
+
+def ea_table(res: CheckResult, prog: Program, schema):
+    res.rules['EA-TABLE'] = 'the (operation, target has itemID, source has itemID) -> class table equals the MOS roElementAction table'
+    fi = prog.func('ElementAction._classify')
+    tables = [d for d in const_str_dict(fi) if all(isinstance(k, ast.Tuple) and len(k.elts) == 3 and all(isinstance(x, ast.Constant) for x in k.elts) for k in d.keys)]
+    if not tables:
+        res.error('EA-TABLE: no (operation, bool, bool) -> class dict display found in ElementAction._classify (idiom not recognised)')
+        return
+    d = tables[0]
+    got = {tuple(x.value for x in k.elts): attr_chain(v) for k, v in zip(d.keys, d.values)}
+    for key, cname in schema.EA_TABLE.items():
+        ok = got.get(key) == cname
+        res.add('EA-TABLE', fi.short, f'{key} -> {cname}', ok, '' if ok else f'table maps {key} to {got.get(key)}', fi.file, d.lineno)
+    for key in got:
+        if key not in schema.EA_TABLE:
+            res.add('EA-TABLE', fi.short, f'{key} -> {got[key]}', False, 'row outside the MOS roElementAction table', fi.file, d.lineno)
+
+
+def _ctor_shape(fi: FuncInfo):
+    """Normalised body of a from_* constructor with the parse call and the argument name abstracted."""
+    class N(ast.NodeTransformer):
+        def __init__(self, params):
+            self.params = params
+
+        def visit_Name(self, n):
+            if n.id in self.params:
+                return ast.copy_location(ast.Name(id=f'ARG{self.params.index(n.id)}', ctx=n.ctx), n)
+            return n
+
+        def visit_Call(self, n):
+            self.generic_visit(n)
+            t = attr_chain(n.func)
+            if t in ('ElementTree.fromstring', 'ElementTree.XML'):
+                return ast.copy_location(ast.Name(id='PARSED_ROOT', ctx=ast.Load()), n)
+            if t.endswith('.getroot') and isinstance(n.func, ast.Attribute) and isinstance(n.func.value, ast.Call) \
+                    and attr_chain(n.func.value.func) == 'ElementTree.parse':
+                return ast.copy_location(ast.Name(id='PARSED_ROOT', ctx=ast.Load()), n)
+            return n
+    params = [a.arg for a in fi.node.args.args[1:]]
+    body = [s for s in fi.node.body if not (isinstance(s, ast.Expr) and isinstance(s.value, ast.Constant))]
+    mod = ast.Module(body=[N(params).visit(ast.parse(ast.unparse(s)).body[0]) for s in body], type_ignores=[])
+    return ast.unparse(mod)
+
+
+def ctor_siblings(res: CheckResult, prog: Program):
+    res.rules['CTOR-SIBLINGS'] = 'MosFile.from_file and from_string have the same shape (parse in try, ParseError -> MosInvalidXML, same dispatch); from_s3 delegates to from_string'
+    f1, f2, f3 = prog.func('MosFile.from_file'), prog.func('MosFile.from_string'), prog.func('MosFile.from_s3')
+    a, b = _ctor_shape(f1), _ctor_shape(f2)
+    res.add('CTOR-SIBLINGS', 'MosFile.from_file/from_string', 'bodies equal modulo the parse call', a == b,
+            '' if a == b else 'the file and string constructors differ beyond the parse call', f1.file, f1.node.lineno)
+    deleg = calls_in(f3.node, lambda c: attr_chain(c.func) in ('cls.from_string', 'MosFile.from_string'))
+    rets = [n for n in ast.walk(f3.node) if isinstance(n, ast.Return)]
+    ok = bool(deleg) and all(isinstance(r.value, ast.Call) and attr_chain(r.value.func).endswith('.from_string') for r in rets)
+    res.add('CTOR-SIBLINGS', f3.short, 'returns cls.from_string(<downloaded contents>)', ok,
+            '' if ok else 'from_s3 does not delegate to from_string', f3.file, f3.node.lineno)
+
+
+# ------------------------------------------------------------------- C07
+def no_bypass(res: CheckResult, prog: Program):
+    """NO-BYPASS: the only call of a MosFile-family merge(ro) is the dispatch in RunningOrder.__add__."""
+    res.rules['NO-BYPASS'] = 'the only call site of <message>.merge(<running order>) is the dispatch inside RunningOrder.__add__, behind the completion guard'
+    found = 0
+    for fi in prog.all_functions():
+        for c in calls_in(fi.node, lambda c: isinstance(c.func, ast.Attribute) and c.func.attr == 'merge' and len(c.args) == 1 and not c.keywords):
+            found += 1
+            ok = fi.short == 'RunningOrder.__add__'
+            res.add('NO-BYPASS', fi.short, norm(c), ok, '' if ok else 'a merge is invoked without going through RunningOrder.__add__ (completion guard bypassed)',
+                    fi.file, c.lineno)
+    if not found:
+        res.error('NO-BYPASS: the dispatch other.merge(self) was not found in RunningOrder.__add__ (anchor vanished)')
+
+
+def marker_writers(res: CheckResult, prog: Program, marker: str):
+    res.rules['MARKER-WRITER'] = 'only RunningOrderEnd.merge creates the completion marker element'
+    n = 0
+    for fi in prog.all_functions():
+        for c in ast.walk(fi.node):
+            if isinstance(c, ast.Constant) and c.value == marker:
+                n += 1
+                par_ok = fi.short in ('RunningOrderEnd.merge', 'RunningOrder.__add__', 'RunningOrder.completed')
+                res.add('MARKER-WRITER', fi.short, f'use of the literal {marker!r}', par_ok,
+                        '' if par_ok else f'{fi.short} mentions the completion marker: only RunningOrderEnd.merge may write it and __add__/completed read it',
+                        fi.file, c.lineno)
+    if n < 3:
+        res.error(f'MARKER-WRITER: expected the marker literal {marker!r} in the writer and two readers, found {n} uses')
+
+
+def detect_completed(res: CheckResult, prog: Program):
+    res.rules['DETECT-PRINT'] = 'detect_file prints the class name, with "(completed)" exactly on the mo.completed branch'
+    fi = prog.func('CLI.detect_file')
+    ifs = [n for n in ast.walk(fi.node) if isinstance(n, ast.If)]
+    ok = False
+    detail = 'no branch on mo.completed found'
+    for i in ifs:
+        if attr_chain(i.test).endswith('.completed'):
+            t = ' '.join(attr_chain(s) for s in i.body)
+            e = ' '.join(attr_chain(s) for s in i.orelse)
+            ok = '(completed)' in t and '(completed)' not in e and '__class__.__name__' in t and '__class__.__name__' in e
+            detail = '' if ok else 'the (completed) suffix / class name is not printed on the right branch'
+    res.add('DETECT-PRINT', fi.short, 'if mo.completed: print(... (completed))', ok, detail, fi.file, fi.node.lineno)
+
+
+def serializer(res: CheckResult, prog: Program):
+    n = 0
+    for name in ('MosFile.__str__', 'MosElement.__str__'):
+        fi = prog.func(name)
+        rets = [r for r in ast.walk(fi.node) if isinstance(r, ast.Return) and r.value is not None]
+        ok = len(rets) == 1 and isinstance(rets[0].value, ast.Call) and attr_chain(rets[0].value.func) == 'ElementTree.tostring' \
+            and len(rets[0].value.args) == 1 and attr_chain(rets[0].value.args[0]) == 'self.xml' \
+            and any(k.arg == 'encoding' and isinstance(k.value, ast.Constant) and k.value.value == 'unicode' for k in rets[0].value.keywords)
+        res.add('SERIALIZER', fi.short, "return ElementTree.tostring(self.xml, encoding='unicode')", ok,
+                '' if ok else 'the string form is not the plain ElementTree serialisation of self.xml', fi.file, fi.node.lineno)
+        n += 1
+    fi = prog.func('MosCollection.__str__')
+    rets = [r for r in ast.walk(fi.node) if isinstance(r, ast.Return) and r.value is not None]
+    ok = len(rets) == 1 and attr_chain(rets[0].value) in ('str(self.ro)', 'str(self._ro)')
+    res.add('SERIALIZER', fi.short, 'return str(self.ro)', ok, '' if ok else 'the collection\'s string form is not str(self.ro)', fi.file, fi.node.lineno)
+    others = []
+    for f in prog.all_functions():
+        for c in calls_in(f.node, lambda c: attr_chain(c.func).endswith('tostring') or attr_chain(c.func).endswith('.write') and 'ElementTree' in attr_chain(c.func)):
+            if f.short not in ('MosFile.__str__', 'MosElement.__str__'):
+                others.append(f'{f.short}: {norm(c)}')
+    res.add('SERIALIZER', 'package', 'no other serializer', not others, '' if not others else f'other serialisation sites: {others}')
